@@ -126,15 +126,38 @@ Check compile_bash_embeds :
                       /\ read_stmts Bash (v_command v) s = sts).
 Print Assumptions compile_bash_embeds.
 
+(** The other three shells, as far as the emitter models go ([Model/EmitData.v]: the data sections of
+    the fish, zsh and pwsh scripts): [compile_data sh] = [Driver.compile .. sh] ; [all_tables sh] ;
+    the data blocks.  The same totality, for every shell and every oracle value.  Tied on the data
+    sections byte for byte by lib/vf/checks/e2e.py [tie_data]. *)
+Theorem compile_data_total :
+  forall sh o builtins text,
+    fuel_covers (o_fuel o) builtins text sh ->
+    (exists bs, compile_data sh o builtins text = Ok bs) \/ (exists e, compile_data sh o builtins text = Err e).
+Proof. exact CompilerTotal.compile_data_total. Qed.
+Check compile_data_total :
+  forall sh o builtins text,
+    fuel_covers (o_fuel o) builtins text sh ->
+    (exists bs, compile_data sh o builtins text = Ok bs) \/ (exists e, compile_data sh o builtins text = Err e).
+Print Assumptions compile_data_total.
+
 (** Non-vacuity: with the first pop order and the literal orders / grouping below, [compile_bash]
     returns a script for a grammar with a within-word automaton, says [CBadOracle] when the literal
     order of that automaton is missing, and rejects a cyclic grammar with the checker's error. *)
 Definition ex_o_good : oracles :=
   mkoracles [] 4096 [("c", "")] [(0, [("--o=", ""); ("y", ""); ("x", "")])] [[0]] "sig".
+Definition ex_o_good1 : oracles :=
+  mkoracles [] 4096 [("c", "")] [(0, [("--o=", ""); ("y", ""); ("x", "")])] [[1]] "sig".
 Definition ex_o_bad : oracles := mkoracles [] 4096 [("c", "")] [] [[0]] "sig".
 Example ex_C04c_inhabited :
   is_ok (compile_bash ex_o_good builtins "cmd --o=(x|y) c;") = true
   /\ compile_bash ex_o_bad builtins "cmd --o=(x|y) c;" = Err CBadOracle
-  /\ (exists e, compile_bash ex_o_good builtins "cmd <A>; <A> ::= <A>;" = Err (CDriver (DCheck e))).
-Proof. split; [vm_compute; reflexivity|]. split; [vm_compute; reflexivity|]. eexists. vm_compute. reflexivity. Qed.
+  /\ (exists e, compile_bash ex_o_good builtins "cmd <A>; <A> ::= <A>;" = Err (CDriver (DCheck e)))
+  /\ is_ok (compile_data Zsh ex_o_good1 builtins "cmd --o=(x|y) c;") = true
+  /\ is_ok (compile_data Fish ex_o_good1 builtins "cmd --o=(x|y) c;") = true
+  /\ is_ok (compile_data Pwsh ex_o_good builtins "cmd --o=(x|y) c;") = true.
+Proof.
+  split; [vm_compute; reflexivity|]. split; [vm_compute; reflexivity|].
+  split; [eexists; vm_compute; reflexivity|]. repeat split; vm_compute; reflexivity.
+Qed.
 Print Assumptions ex_C04c_inhabited.
